@@ -168,6 +168,8 @@ def run(ctx):
     nrand = 60 if quick else 1500
     for i in range(nrand):
         scs.append(G.gen_scenario(ctx.rng, twins=(i % 5 == 4)))
+    for i in range(12 if quick else 300):
+        scs.append(G.gen_crossing_scenario(ctx.rng))
     if not quick:
         fam = G.exhaustive_family(3)
         scs += fam
